@@ -1,9 +1,9 @@
 //! Process-level rigs around the real `roughenough-server` binary: start-up (C15), multi-worker
 //! load (C18), signal handling (C19), the real client against the real server (C03) and the
 //! stdout/stderr leak monitor (C20).
-use crate::client::{emit as emit_client, run_client_to, RunSpec};
-use crate::rig::{classic_request, ietf_request, VER13};
-use crate::srv::{secret_patterns, leak_scan};
+use crate::client::{emit as emit_client, run_client_to, run_client_to_with, RunSpec};
+use crate::wire::{classic_request, ietf_request, VER13};
+use crate::wire::{secret_patterns, leak_scan};
 use crate::util::*;
 use crate::Ctx;
 use std::io::{Read, Write};
@@ -45,19 +45,21 @@ pub struct ProcCfg {
     pub env_source: bool,
     /// verbatim example.cfg (ports replaced only if taken)
     pub example_cfg: bool,
+    /// order of the keys in the YAML file / of setting the variables: 0 as listed, 1 reversed, 2 rotated
+    pub order: u8,
 }
 
 impl ProcCfg {
     pub fn basic(seed: Vec<u8>, workers: usize) -> Self {
-        ProcCfg { seed, workers: Some(workers), hc: false, batch: None, fault: None, status: None, client_stats: false, env_source: false, example_cfg: false }
+        ProcCfg { seed, workers: Some(workers), hc: false, batch: None, fault: None, status: None, client_stats: false, env_source: false, example_cfg: false, order: 0 }
     }
     pub fn desc(&self) -> String {
         format!(
-            "workers={},hc={},batch={},fault={},status={},stats={},src={},example={}",
+            "workers={},hc={},batch={},fault={},status={},stats={},src={},example={},order={}",
             self.workers.map(|w| w.to_string()).unwrap_or("default".into()), if self.hc { 1 } else { 0 },
             self.batch.map(|b| b.to_string()).unwrap_or("default".into()), self.fault.map(|b| b.to_string()).unwrap_or("default".into()),
             self.status.map(|b| b.to_string()).unwrap_or("default".into()), if self.client_stats { 1 } else { 0 },
-            if self.env_source { "env" } else { "file" }, if self.example_cfg { 1 } else { 0 }
+            if self.env_source { "env" } else { "file" }, if self.example_cfg { 1 } else { 0 }, self.order
         )
     }
 }
@@ -98,6 +100,11 @@ impl ServerProc {
             if cfg.client_stats {
                 entries.push(("client_stats".into(), "\"on\"".into()));
                 entries.push(("persistence_directory".into(), format!("\"{}\"", persist)));
+            }
+            match cfg.order {
+                1 => entries.reverse(),
+                2 => { let k = entries.len() / 2; entries.rotate_left(k); }
+                _ => {}
             }
             let mut cmd = Command::new(bin("roughenough-server"));
             for k in ["PORT", "INTERFACE", "SEED", "BATCH_SIZE", "STATUS_INTERVAL", "KMS_PROTECTION", "HEALTH_CHECK_PORT", "CLIENT_STATS", "FAULT_PERCENTAGE", "NUM_WORKERS", "PERSISTENCE_DIRECTORY"] {
@@ -393,7 +400,7 @@ pub fn run_startup(ctx: &Ctx) {
     let seed = unhex("a32049da0ffde0ded92ce10a0230d35fe615ec8461c14986baa63fe3b3bac3db");
     let mut cfgs: Vec<ProcCfg> = vec![];
     // the repository's own example.cfg, verbatim
-    cfgs.push(ProcCfg { seed: seed.clone(), workers: None, hc: true, batch: None, fault: None, status: None, client_stats: false, env_source: false, example_cfg: true });
+    cfgs.push(ProcCfg { seed: seed.clone(), workers: None, hc: true, batch: None, fault: None, status: None, client_stats: false, env_source: false, example_cfg: true, order: 0 });
     let batches = [1u8, 2, 63, 64];
     let faults = [0u8, 1, 50];
     let statuses = [1u32, 10, 600];
@@ -403,7 +410,7 @@ pub fn run_startup(ctx: &Ctx) {
                 for k in 0..6 {
                     cfgs.push(ProcCfg {
                         seed: r.bytes(32), workers: Some(w), hc, batch: Some(batches[(w + k) % 4]), fault: Some(faults[(w + k) % 3]),
-                        status: Some(statuses[(w / 2 + k) % 3]), client_stats: k % 2 == 1, env_source: k % 3 == 2, example_cfg: false,
+                        status: Some(statuses[(w / 2 + k) % 3]), client_stats: k % 2 == 1, env_source: k % 3 == 2, example_cfg: false, order: ((w + k) % 3) as u8,
                     });
                 }
             }
@@ -414,7 +421,7 @@ pub fn run_startup(ctx: &Ctx) {
         for (i, &w) in ws.iter().enumerate() {
             cfgs.push(ProcCfg {
                 seed: r.bytes(32), workers: Some(w), hc: i % 2 == 0, batch: Some(batches[i % 4]), fault: Some(faults[i % 3]),
-                status: Some(statuses[(i / 2) % 3]), client_stats: i % 3 == 1, env_source: i % 4 == 3, example_cfg: false,
+                status: Some(statuses[(i / 2) % 3]), client_stats: i % 3 == 1, env_source: i % 4 == 3, example_cfg: false, order: ((i / 3) % 3) as u8,
             });
         }
     }
@@ -579,6 +586,10 @@ fn shutdown_case(out: &mut Out, r: &mut Rng, nworkers: usize, client_stats: bool
     cfg.client_stats = client_stats;
     // status_interval also paces the statistics reporter: cover short, medium and the default (600 s)
     cfg.status = match delay_ms % 3 { 0 => None, 1 => Some(10), _ => Some(120) };
+    if regime == "load-stats" {
+        // busy workers publishing per-client snapshots every 100 ms into a queue the reporter drains once a second
+        cfg.status = Some(1);
+    }
     let desc = format!("seed={},workers={},stats={},sig={},regime={},delay={}", hex(&seed), nworkers, if client_stats { 1 } else { 0 },
         if sig == libc::SIGINT { "INT" } else { "TERM" }, regime, delay_ms);
     let mut sp = match ServerProc::start(&cfg) {
@@ -588,7 +599,7 @@ fn shutdown_case(out: &mut Out, r: &mut Rng, nworkers: usize, client_stats: bool
     let addr = sp.addr();
     let stop = Arc::new(AtomicBool::new(false));
     let mut handles = vec![];
-    let nthreads = match regime { "idle" => 0, "load" => 4, _ => 6 };
+    let nthreads = match regime { "idle" => 0, "load" => 4, "load-stats" => 4 * nworkers.max(1), _ => 6 };
     for t in 0..nthreads {
         let stop = stop.clone();
         let flood = regime == "flood";
@@ -619,7 +630,7 @@ fn shutdown_case(out: &mut Out, r: &mut Rng, nworkers: usize, client_stats: bool
                     let req = if rr.chance(1, 2) { classic_request(&rr.bytes(64), 1024) } else { ietf_request(&VER13, None, &rr.bytes(32), 1024) };
                     let _ = sock.send_to(&req, addr);
                     outstanding.push(req);
-                    if outstanding.len() > 8 { outstanding.remove(0); }
+                    if outstanding.len() > 64 { outstanding.remove(0); }
                     if let Ok((n, _)) = sock.recv_from(&mut buf) {
                         let reply = buf[..n].to_vec();
                         // attribute by echoed nonce; a reply with an unknown nonce is kept against an
@@ -685,6 +696,12 @@ pub fn run_shutdown(ctx: &Ctx) {
             }
         }
     }
+    // statistics back-pressure: per-client statistics with a 1 s status interval under load for a few seconds
+    for (k, &w) in [1usize, 4, 2].iter().enumerate() {
+        if !ctx.thorough && k == 2 { continue; }
+        let sig = if k % 2 == 0 { libc::SIGINT } else { libc::SIGTERM };
+        shutdown_case(&mut out, &mut r, w, true, sig, "load-stats", 2600 + 400 * k as u64);
+    }
     out.flush();
 }
 
@@ -707,10 +724,33 @@ pub fn run_client_real(ctx: &Ctx) {
         };
         for &ver in &['G', 'I'] {
             for keymode in 0..3 {
-                for nreq in [1usize, 64] {
+                // (nreq, mixed): mixed = the client's requests land in a batch BEHIND other traffic (junk, requests of
+                // the other protocol and of other clients): the server is stopped while everything is queued
+                for (nreq, mixed) in [(1usize, false), (64, false), (1, true), (2, true), (40, true)] {
                     let key = match keymode { 0 => None, 1 => Some((false, pk.clone())), _ => Some((true, pk.clone())) };
                     let spec = RunSpec { ver, key, nreq, json: false, kind: "honest".into() };
-                    let res = run_client_to(&spec, sp.port);
+                    let res = if !mixed { run_client_to(&spec, sp.port) } else {
+                        let noise = std::net::UdpSocket::bind("127.0.0.1:0").unwrap();
+                        let dst = format!("127.0.0.1:{}", sp.port);
+                        sp.signal(libc::SIGSTOP);
+                        let k = 1 + r.below(5) as usize;
+                        for _ in 0..k {
+                            let d = match r.below(4) {
+                                0 => { let n = *r.pick(&[40usize, 1024, 1100]); r.bytes(n) }
+                                1 => classic_request(&r.bytes(64), 1024),
+                                2 => ietf_request(&VER13, None, &r.bytes(32), 1024),
+                                _ => { let mut d = b"ROUGHTIM".to_vec(); d.extend(r.bytes(1016)); d }
+                            };
+                            let _ = noise.send_to(&d, &dst);
+                        }
+                        let res = run_client_to_with(&spec, sp.port, &mut || {
+                            std::thread::sleep(Duration::from_millis(120));
+                            sp.signal(libc::SIGCONT);
+                        });
+                        sp.signal(libc::SIGCONT);
+                        res
+                    };
+                    let nreq_s = if mixed { format!("{}+noise", nreq) } else { nreq.to_string() };
                     // requests/responses are not visible from outside: emit the observable only
                     let keyopt = match &spec.key { None => "none".to_string(), Some((b, k)) => format!("{}:{}", if *b { "b64" } else { "hex" }, hex(k)) };
                     let t0 = res.t0;
@@ -719,7 +759,7 @@ pub fn run_client_real(ctx: &Ctx) {
                         if res.out.is_empty() { "-".into() } else { res.out.join("|") },
                         if res.ver.is_empty() { "-".into() } else { res.ver.join("|") },
                         if res.idx.is_empty() { "-".into() } else { res.idx.join("|") }, t0, t1);
-                    out.case("clientreal", &[&ver.to_string(), &keyopt, &nreq.to_string()], &imp);
+                    out.case("clientreal", &[&ver.to_string(), &keyopt, &nreq_s], &imp);
                 }
             }
         }
